@@ -659,10 +659,11 @@ def T(pkg, harness, params=None, **kw):
 
 def c16(tier):
     n, d = W(tier, 2, 3), 2
-    jobs = [T("utils", "VerifC16_TypeLine", {"N": n, "D": d}), T("utils", "VerifC16_ExtendedTypeLine", {"N": n, "D": d}),
-            T("utils", "VerifC16_ConditionLine", {"N": n, "D": d}), T("utils", "VerifC16_RelationLine", {"N": n, "D": d}),
+    lay = {"NS": W(tier, 4, 5), "NI": W(tier, 3, 6)}   # separators / indents taken from the lists in harness/utils/c16_lines.go
+    jobs = [T("utils", "VerifC16_TypeLine", dict(lay, N=n, D=d)), T("utils", "VerifC16_ExtendedTypeLine", dict(lay, N=n, D=d)),
+            T("utils", "VerifC16_ConditionLine", dict(lay, N=n, D=d)), T("utils", "VerifC16_RelationLine", dict(lay, N=n, D=d)),
             T("utils", "VerifC16_Column", {"N": 3}),
-            T("utils", "VerifC08_OddLines", {"T": W(tier, 1, 2)}), T("utils", "VerifC08_FreeLine", {"L": W(tier, 6, 8)}),
+            T("utils", "VerifC08_OddLines", {"T": W(tier, 1, 2), "NS": 3, "NI": 3}), T("utils", "VerifC08_FreeLine", {"L": W(tier, 6, 8)}),
             T("transformer", "VerifC03_PrePass", {"N": W(tier, 6, 8)}),
             T("transformer", "VerifC07_Merge", {"SCEN": 1, "N": 2, "NR": 1, "SEPS": 1}),
             T("transformer", "VerifC07_Merge", {"SCEN": 5, "N": 1, "NR": 1}),
@@ -675,7 +676,7 @@ def c16(tier):
                           "VerifC08_OddLines": ["declaration", "no-declaration"], "VerifC08_FreeLine": ["declaration", "no-declaration"], "VerifC03_PrePass": ["lemmas-checked"], "VerifC07_Merge": ["rejected"], "VerifListener_Doc": ["rejected"], "VerifC16_SyntaxError": ["recorded"]},
                          ["ANTLR token positions with respect to the cleaned text are outside (lexer/parser not encoded)",
                           "declaration lines follow the layout <indent><keyword> <name><tail>"], "",
-                         bounds={"line lookups": "<= %d declarations, names of length 1..%d over {a,e,t,_,.,-}, 5 indents (blanks/tabs), 3 keyword-name separators, 2-3 tails" % (d + 1, n),
+                         bounds={"line lookups": "<= %d declarations, names of length 1..%d over {a,e,t,_,.,-}, %d indents and %d keyword-name separators (blanks, tabs, form feeds), 2-3 tails" % (d + 1, n, lay["NI"], lay["NS"]),
                                  "pre-pass": "all byte strings of length <= %d" % W(tier, 6, 8)})
     out.finish()
 
@@ -736,7 +737,7 @@ def c08(tier):
             LJ("VerifC08_ListenerRecovery", tier, NODES=1, DEPTH=0, SIBLINGS=0, CONDS=1, FIXLAYOUT=1, PARAMS=1, EXTEND=1, MODULES=1),
             T("graph", "VerifC08_GraphDegenerate", {"DEPTH": W(tier, 1, 2)}),
             T("graph", "VerifC08_PlainGraphDegenerate", init_allow=["gonum.org/v1/gonum/graph/encoding/dot"]),
-            T("utils", "VerifC08_OddLines", {"T": W(tier, 1, 2)}), T("utils", "VerifC08_FreeLine", {"L": W(tier, 6, 8)}),
+            T("utils", "VerifC08_OddLines", {"T": W(tier, 1, 2), "NS": W(tier, 3, 5), "NI": W(tier, 3, 6)}), T("utils", "VerifC08_FreeLine", {"L": W(tier, 6, 8)}),
             # work clause: instructions executed <= WA + WB*n*n (n relations); the unchanged tree needs about 1400*n
             T("graph", "VerifC08_BoundedWork", {"D": W(tier, 16, 40), "WA": 100000, "WB": 1000}),
             # printer: about 160*n on the unchanged tree; merge: about 340*n
